@@ -293,7 +293,8 @@ def contract_others(ctx):
                          ('classical/fro/bsr', lambda: strength.classical_strength_of_connection(Ab, 0.25, norm='fro')),
                          ('symmetric/bsr', lambda: strength.symmetric_strength_of_connection(Ab, 0.25)),
                          ('symmetric/bsr/theta0', lambda: strength.symmetric_strength_of_connection(Ab, 0.0)),
-                         ('evolution/bsr', lambda: strength.evolution_strength_of_connection(Ab, np.ones((n, 1))))):
+                         ('evolution/bsr', lambda: strength.evolution_strength_of_connection(Ab, np.ones((n, 1)))),
+                         ('energy/bsr', lambda: strength.energy_based_strength_of_connection(Ab, theta=0.1, k=2))):
             c = dict(matrix=D.tolist(), blocksize=bs, measure=mname)
             ctx.mark(c)
             try:
@@ -324,6 +325,53 @@ def contract_others(ctx):
                 if not np.array_equal(S0, S1):
                     ctx.fail(mname + '/not-scale-invariant', 'strength of %g * A differs from strength of A (max diff %.3g)'
                              % (fac, np.abs(S0 - S1).max()), c)
+    # the classical rules compare magnitudes, never their squares or products: they hold as they stand for matrices whose
+    # entries are near the ends of the floating-point range (2^-600 and 2^600: squares would underflow / overflow)
+    for name, A in mats[:3]:
+        for fac in (2.0 ** -600, 2.0 ** 600):
+            for mname, f in (('classical/abs', lambda M: strength.classical_strength_of_connection(M, 0.25, norm='abs')),
+                             ('classical/min', lambda M: strength.classical_strength_of_connection(M, 0.25, norm='min'))):
+                c = dict(matrix=name, measure=mname, scaled_by='2^%d' % (600 if fac > 1 else -600), rows=gen.rows_of(A) if A.shape[0] <= 12 else None)
+                ctx.mark(c)
+                try:
+                    with np.errstate(all='ignore'):
+                        S0 = sp.csr_array(f(A)).toarray()
+                        S1 = sp.csr_array(f(sp.csr_array(A * fac))).toarray()
+                except Exception as e:   # noqa
+                    ctx.fail(mname + '/scaled/raises', repr(e), c)
+                    continue
+                ctx.case(('scaled-extreme', mname, name, fac), True)
+                ctx.count('contract:scale-invariance-extreme')
+                if not np.array_equal(S0 != 0, S1 != 0):
+                    ctx.fail(mname + '/not-scale-invariant', 'strength PATTERN of 2^%d * A differs from that of A' % (600 if fac > 1 else -600), c)
+    # symmetric measure on complex matrices whose DIAGONAL is complex (i A, A + 3i I, a random complex matrix): the rule uses
+    # the magnitudes |a_ii|, |a_jj|, |a_ij|
+    for name, A in mats[:3]:
+        Ad_ = A.toarray()
+        for tag, Cd in (('i*A', 1j * Ad_), ('A+3i*I', Ad_ + 3j * np.eye(Ad_.shape[0])), ('(1+2i)*A', (1 + 2j) * Ad_)):
+            for dt in (np.complex128, np.complex64):
+                Cs = sp.csr_array(Cd.astype(dt))
+                for th in (0.25, 0.5):
+                    c = dict(matrix=name, transform=tag, dtype=np.dtype(dt).name, measure='symmetric', theta=th)
+                    ctx.mark(c)
+                    try:
+                        Sg = sp.csr_array(strength.symmetric_strength_of_connection(Cs, th)).toarray() != 0
+                    except Exception as e:   # noqa
+                        ctx.fail('symmetric/complex-diagonal/raises', repr(e), c)
+                        continue
+                    ctx.case(('complex-diagonal', name, tag, np.dtype(dt).name, th), True)
+                    ctx.count('contract:symmetric/complex-diagonal')
+                    Cx = Cs.toarray().astype(np.complex128)
+                    dmag = np.abs(np.diag(Cx))
+                    lhs = np.abs(Cx) ** 2
+                    rhs = th ** 2 * np.outer(dmag, dmag)
+                    want = (lhs >= rhs) & (Cx != 0)
+                    np.fill_diagonal(want, True)
+                    clear = (np.abs(lhs - rhs) > (1e-9 if dt == np.complex128 else 1e-4) * np.maximum(lhs, rhs)) | np.eye(len(dmag), dtype=bool)
+                    if np.any((Sg != want) & clear & (Cx != 0)):
+                        i_, j_ = np.argwhere((Sg != want) & clear & (Cx != 0))[0]
+                        ctx.fail('symmetric/complex-diagonal/not-the-rule', 'entry (%d,%d): kept=%s but |a_ij|^2=%.6g, theta^2|a_ii||a_jj|=%.6g'
+                                 % (i_, j_, bool(Sg[i_, j_]), lhs[i_, j_], rhs[i_, j_]), c)
     # BSR, block-wise: the documented reduction (largest magnitude / smallest signed entry of each block) followed by
     # the scalar rule on the nodal matrix -- the scalar rule itself is what the theorems and the bit-exact
     # correspondence above are about
